@@ -45,6 +45,10 @@ func main() {
 		props.Probe(flag.Args()[1:])
 		return
 	}
+	if flag.NArg() > 3 && flag.Arg(0) == "res" {
+		props.ProbeRes(flag.Args()[1:])
+		return
+	}
 	if *selftest {
 		os.Exit(props.SelfTest())
 	}
